@@ -84,7 +84,14 @@ def run(ctx):
         spans.append((len(calls), len(calls) + len(mc)))
         calls.extend(mc)
     mods = ctx.model.batch(calls)
-    dmods = ctx.model.batch([("dominance", ([o == 1 for o in c["objectives"]], c["matrix"])) for c in cases])
+    # the model's dominance report includes dominators_of, whose recursion (like the implementation's) is exponential
+    # in the number of alternatives: the cases with 65..300 alternatives use the pairwise test and the accessor only
+    small = [i for i, c in enumerate(cases) if len(c["matrix"]) < 60]
+    got = ctx.model.batch([("dominance", ([o == 1 for o in cases[i]["objectives"]], cases[i]["matrix"]))
+                           for i in small])
+    dmods = [None] * len(cases)
+    for i, g in zip(small, got):
+        dmods[i] = g
     for c, o, d, dmo, (a, b) in zip(cases, outs, doms, dmods, spans):
         name = c["method"]["name"]
         ctx.count("method:" + name + (":" + c["method"]["metric"] if name == "topsis" else ""))
@@ -98,8 +105,10 @@ def run(ctx):
         # the dominance relation: independent test == model == accessor
         want = [[i != j and dominates(c["objectives"], c["matrix"][i], c["matrix"][j]) for j in range(n)]
                 for i in range(n)]
-        if dmo[2] != want or d != want:
-            ctx.disagree(c, {"what": "dominance relation", "model": dmo[2], "accessor": d, "direct": want})
+        if n >= 60:
+            ctx.count("alternatives>=65")
+        if (dmo is not None and dmo[2] != want) or d != want:
+            ctx.disagree(c, {"what": "dominance relation", "model": dmo and dmo[2], "accessor": d, "direct": want})
         msg = oracle(c, o)
         if msg:
             ctx.oracle_fail(c, {"oracle": msg, "ranks": o.get("values"), "extra": o.get("extra")})
